@@ -273,7 +273,7 @@ func genTF(r *common.Rng, k, total int, thorough bool) tfcase {
 		}
 	}
 	// keep the two recorded situations apart (K02 gap, failed remote no-op)
-	if gapped {
+	if gapped || len(c.ans) > 0 {
 		for j := range c.t.recs {
 			if c.t.recs[j].op == "re" {
 				c.t.recs[j].op = "rd"
